@@ -563,6 +563,17 @@ def rule_state_predicates(ctx):
                     undec += 1
                 elif tr != {exp}:
                     bad.append((la, c1, c2, sorted(tr)))
+    # independent of the table's shape: every order comparison in contains() has the queried number on one side - a bound that is
+    # compared with the range's own other end (`first <= last`) is a dropped bound
+    Tf = ctx.T(f)
+    for c in Tf.calls():
+        q = c["rq"] or c["q"]
+        if q.endswith(("PartialOrd::lt", "PartialOrd::le", "PartialOrd::gt", "PartialOrd::ge")) or q.endswith(("PartialOrd>::lt", "PartialOrd>::le", "PartialOrd>::gt", "PartialOrd>::ge")):
+            args = Tf.args_of(c)
+            if len(args) == 2 and not any(x[0] == "param" and x[1] == 2 for a in args for x in subterms(a)):
+                from engine.terms import show
+                ctx.ob(R, "contains(n) bounds", False, "BlockStoreState::contains compares %s with %s: neither side is the queried block number, so one bound of first <= n <= last is not checked (a peer is asked for / claims blocks outside its range)" % (show(args[0])[:60], show(args[1])[:60]), f.loc(c["t"].get("ln")))
+                bad = bad or [("bound without n",)]
     if undec and not bad:
         ctx.note("C08.10 BlockStoreState::contains: %d of 18 valuations not evaluated - not decided" % undec)
     ctx.ob(R, "contains(n)", not bad, ("contains(n) == last.is_some() && first <= n <= last.number() (18 valuations)" if not undec else "undecided shape (not reported)") if not bad else
